@@ -213,6 +213,115 @@ func qeQueued(workers int) string {
 	return fmt.Sprintf("queued r1=%d r2=%d order=%s", countResponses(run.C, "_INBOX.u1"), countResponses(run.C, "_INBOX.u2"), out)
 }
 
+// qeLateEnqueue: a query request is taken off the subscription while the event is active, but
+// the listener is held (at its note hook) until the event has expired and the nil call is
+// queued behind a busy group; then it enqueues the request. The callback must not be called
+// after it was called with nil.
+func qeLateEnqueue(workers int) string {
+	var mu sync.Mutex
+	var order []string
+	arrived := make(chan struct{}, 1)
+	releaseListener := make(chan struct{})
+	expired := make(chan struct{}, 1)
+	held := false
+	setHooks(func(point, wid string, n int) {
+		switch point {
+		case "s.qrequest":
+			mu.Lock()
+			first := !held
+			held = true
+			mu.Unlock()
+			if first {
+				arrived <- struct{}{}
+				<-releaseListener
+			}
+		case "s.qexpire":
+			select {
+			case expired <- struct{}{}:
+			default:
+			}
+		}
+	}, nil)
+	defer setHooks(nil, nil)
+	otherEntered := make(chan struct{}, 1)
+	releaseGroup := make(chan struct{})
+	run, err := qeScenService("shared", workers, func() {
+		otherEntered <- struct{}{}
+		<-releaseGroup
+	})
+	if err != nil {
+		return "start-failed"
+	}
+	defer run.Stop()
+	nilCh := make(chan struct{}, 4)
+	subject, ok := qeStartEvent(run, func(q res.QueryRequest) {
+		mu.Lock()
+		if q == nil {
+			order = append(order, "nil")
+		} else {
+			order = append(order, "q")
+		}
+		mu.Unlock()
+		if q == nil {
+			nilCh <- struct{}{}
+			return
+		}
+		q.NotFound()
+	})
+	if !ok {
+		close(releaseListener)
+		close(releaseGroup)
+		return "no-query-subject"
+	}
+	// the group is busy from now on
+	run.C.Deliver("call.svc.other.do", "_INBOX.l0", nil)
+	select {
+	case <-otherEntered:
+	case <-time.After(2 * time.Second):
+		close(releaseListener)
+		close(releaseGroup)
+		return "other-handler-never-ran"
+	}
+	// received while the event is active; the listener stops right after taking it
+	run.C.Deliver(subject, "_INBOX.l1", []byte(`{"query":"a=1"}`))
+	select {
+	case <-arrived:
+	case <-time.After(2 * time.Second):
+		close(releaseListener)
+		close(releaseGroup)
+		return "request-not-received"
+	}
+	select {
+	case <-expired:
+	case <-time.After(3 * time.Second):
+		close(releaseListener)
+		close(releaseGroup)
+		return "no-expiry"
+	}
+	time.Sleep(20 * time.Millisecond) // the nil call is queued behind the busy group now
+	close(releaseListener)
+	time.Sleep(20 * time.Millisecond) // the listener has enqueued the request (or dropped it)
+	close(releaseGroup)
+	select {
+	case <-nilCh:
+	case <-time.After(3 * time.Second):
+		return "no-nil-call"
+	}
+	time.Sleep(30 * time.Millisecond)
+	mu.Lock()
+	defer mu.Unlock()
+	out := ""
+	for _, o := range order {
+		out += o + ","
+	}
+	n := countResponses(run.C, "_INBOX.l1")
+	r := "at-most-one"
+	if n > 1 {
+		r = strconv.Itoa(n)
+	}
+	return fmt.Sprintf("lateenq order=%s replies=%s", out, r)
+}
+
 func qeScenario(a []string) string {
 	w := 2
 	if len(a) > 1 {
@@ -225,6 +334,8 @@ func qeScenario(a []string) string {
 		return qeSerial(w)
 	case "queued":
 		return qeQueued(w)
+	case "lateenq":
+		return qeLateEnqueue(w)
 	}
 	return "bad-op"
 }
